@@ -104,6 +104,10 @@ def _concrete(cfg, rep):
     checks.append(("unknown-head-name-rejected", raises(lambda: T.get_head_configs("topdown"))))
     checks.append(("two-backbones-rejected", raises(lambda: BackboneConfig(unet=UNetConfig(), convnext=ConvNextConfig()))))
     checks.append(("two-heads-rejected", raises(lambda: HeadConfig(single_instance=SingleInstanceConfig(), centroid=CentroidConfig()))))
+    # ... also when some or all of them are passed positionally
+    checks.append(("two-backbones-rejected-positional", raises(lambda: BackboneConfig(UNetConfig(), ConvNextConfig())) and raises(lambda: BackboneConfig(UNetConfig(), convnext=ConvNextConfig()))))
+    checks.append(("two-heads-rejected-positional", raises(lambda: HeadConfig(SingleInstanceConfig(), CentroidConfig())) and raises(lambda: HeadConfig(SingleInstanceConfig(), centroid=CentroidConfig()))))
+    checks.append(("one-backbone-or-head-accepted", (not raises(lambda: BackboneConfig(UNetConfig()))) and (not raises(lambda: HeadConfig(centroid=CentroidConfig()))) and (not raises(lambda: BackboneConfig(convnext=ConvNextConfig())))))
     checks.append(("invalid-pretrained-weights-rejected", raises(lambda: ModelConfig(pre_trained_weights="not_a_weight", backbone_config=T.get_backbone_config("convnext")))))
     # defaults: a builder call without optional arguments equals the schema defaults everywhere except the required paths and chosen backbone/head
     c = verify_training_cfg(TrainingJobConfig(data_config=T.get_data_config(train_labels_path="a.slp", val_labels_path="b.slp"),
